@@ -620,14 +620,15 @@ class FieldedOrderedHashReader(HashReader):
         return self.fieldmap[fieldname][0]
 
     def fielded_ranges(self, pos=None, eod=None):
-        flist = self.fieldlist
-        fpos = 0
-        fieldname, start, end = flist[fpos]
-        for keypos, keylen, datapos, datalen in self._ranges(pos, eod):
-            if keypos >= end:
-                fpos += 1
-                fieldname, start, end = flist[fpos]
-            yield fieldname, keypos, keylen, datapos, datalen
+        # Each field's key/value pairs are followed by that field's position
+        # array, so walk the fields one by one instead of the whole data area
+        for fieldname, start, end in self.fieldlist:
+            fstart = max(pos or start, start)
+            fend = min(eod or end, end)
+            if fstart < fend:
+                for keypos, keylen, datapos, datalen in self._ranges(fstart,
+                                                                     fend):
+                    yield fieldname, keypos, keylen, datapos, datalen
 
     def iter_terms(self):
         get = self.dbfile.get
